@@ -122,35 +122,7 @@ pub fn check_setters(stats: &mut Stats) -> CheckResult {
 /// Large record counts: N_gene = `ng` (up to the documented limit 65535), N_omim, N_orpha differ; a chain
 /// 1 <- 118 <- 10 <- 11 <- 12 plus a side branch 118 <- 20, records spread over the terms by residue.
 pub fn check_large(ng: u32, no: u32, nr: u32, path: PathSel, stats: &mut Stats) -> CheckResult {
-    let mut f = Facts::default();
-    f.version = (2024, 1, 1);
-    for (id, name) in [(1u32, "All"), (118, "Phenotypic abnormality"), (10, "a"), (11, "b"), (12, "c"), (20, "d"), (5, "Mode of inheritance")] {
-        f.terms.push(TermFact { id, name: name.into(), obsolete: false, replacement: None });
-    }
-    f.edges = vec![(118, 1), (5, 1), (10, 118), (11, 10), (12, 11), (20, 118), (12, 20)];
-    let spots = [12u32, 11, 10, 20, 118, 12, 20, 11];
-    for (k, n) in [(GENE, ng), (OMIM, no), (ORPHA, nr)] {
-        for r in 0..n {
-            let rid = r + 1;
-            // every 11th record has no term at all, every 7th two terms
-            let mut terms = vec![];
-            if r % 11 != 10 {
-                terms.push(spots[(r as usize + k) % spots.len()]);
-                if r % 7 == 0 {
-                    terms.push(spots[(r as usize / 7 + 3) % spots.len()]);
-                }
-            }
-            terms.sort_unstable();
-            terms.dedup();
-            for t in &terms {
-                f.ann_calls.push(AnnCall { kind: k as u8, rec: rid, term: Some(*t), alt_name: None });
-            }
-            if terms.is_empty() {
-                f.ann_calls.push(AnnCall { kind: k as u8, rec: rid, term: None, alt_name: None });
-            }
-            f.recs[k].push(RecFact { id: rid, name: format!("r{rid}"), terms });
-        }
-    }
+    let f = large_record_facts(ng, no, nr);
     let c = OntCase { facts: f, path, noise: Default::default() };
     let b = build_case(&c, stats)?;
     let m = &b.model;
@@ -191,7 +163,7 @@ impl Property for C03 {
         }
     }
     fn required_labels(&self, _tier: Tier) -> Vec<&'static str> {
-        vec!["nontrivial", "ancestors>30", "parents>30", "records>255", "kind-with-zero-records", "term-linked-to-all-records", "rec-without-terms", "setter-grid", "records>32767", "records=65535"]
+        vec!["nontrivial", "ancestors>30", "parents>30", "records>255", "kind-with-zero-records", "term-linked-to-all-records", "rec-without-terms", "setter-grid", "records>32767", "records=65535", "depth>255"]
     }
     fn run_generated(&self, tier: Tier, seed: u64, n: u64, stats: &mut Stats) -> Option<(Value, Failure)> {
         let max = if tier == Tier::Quick { 44 } else { 90 };
@@ -206,6 +178,16 @@ impl Property for C03 {
             let v: (u32, u32, u32, PathSel) = serde_json::from_value(l.clone()).map_err(|e| e.to_string())?;
             stats.cases += 1;
             return Ok(check_large(v.0, v.1, v.2, v.3, stats));
+        }
+        if let Some(b) = case.get("deep") {
+            let v: (u32, u32, u32, PathSel) = serde_json::from_value(b.clone()).map_err(|e| e.to_string())?;
+            stats.cases += 1;
+            let c = OntCase { facts: deep_facts(v.0, v.1, v.2), path: v.3, noise: Default::default() };
+            let r = check(&c, stats);
+            if r.is_ok() {
+                stats.label("depth>255");
+            }
+            return Ok(r);
         }
         replay_typed::<OntCase, _>(case, stats, check)
     }
@@ -226,6 +208,12 @@ impl Property for C03 {
             plans.push((50_000 + vary, 257, 65_535, PathSel::BuilderDefaults));
             plans.push((32_768, 32_767, 32_769, PathSel::Bin(2)));
         }
-        plans.into_iter().map(|p| json!({"large": p})).collect()
+        let mut out: Vec<Value> = plans.into_iter().map(|p| json!({"large": p})).collect();
+        let mult = [7919u32, 104_729][(seed % 2) as usize];
+        out.push(json!({"deep": (300u32, mult, 25u32, PathSel::Builder)}));
+        if tier == Tier::Thorough {
+            out.push(json!({"deep": (1100u32, mult, 60u32, PathSel::Bin(3))}));
+        }
+        out
     }
 }
